@@ -102,6 +102,15 @@ def run(R):
             if k.arg == "start":
                 start = q.const_value(k.value)
         counter = (lp.target.elts[0].id, start)
+    elif lp.body and isinstance(lp.body[-1], ast.AugAssign) and isinstance(lp.body[-1].op, ast.Add) and isinstance(lp.body[-1].target, ast.Name) \
+            and q.const_value(lp.body[-1].value) == 1:
+        # a hand-written enumerate: `pos = c` before the loop, `pos += 1` as the last statement of every iteration, no other store
+        cn = lp.body[-1].target.id
+        stores = [x for x in q.scope_nodes(tf.node) if isinstance(x, ast.Name) and x.id == cn and isinstance(x.ctx, ast.Store)]
+        inits = [v for k_, v in common.assigned_values(tf.node, cn) if k_ == "expr" and isinstance(v, ast.Constant) and isinstance(v.value, int)]
+        conts = [x for x in ast.walk(lp) if isinstance(x, ast.Continue)]
+        if len(stores) == 2 and len(inits) == 1 and not conts:
+            counter = (cn, inits[0].value)
     appends = [n for n, c in kit.call_sites(tf, lambda c: q.attr_call(c)[1] == "append")]
     res = q.dotted(q.attr_call(kit.call_sites(tf, lambda c: q.attr_call(c)[1] == "append")[0][1])[0])
 
